@@ -117,6 +117,7 @@ def dtype_follow(proj, f):
     truncates silently.  -> [(lineno, buffer text, store text)]"""
     ctx = MethodCtx(proj, f, set())
     params = set(ctx.params)
+    selfnames = {ctx.sn} if ctx.sn else set()
 
     def dep(node):
         return any(p.split(".")[0].split("[")[0] in params for p in ctx.deps(node, False))
@@ -125,6 +126,10 @@ def dtype_follow(proj, f):
         if isinstance(node, ast.Call):
             if _np_name(node.func) in LIKE_FUNCS and node.args and dep(node.args[0]) and not any(k.arg == "dtype" for k in node.keywords):
                 return True
+            # np.zeros(n, dtype=arg.dtype) / np.empty(shape, dtype=arg[i].dtype): the dtype is taken from an argument
+            for k in node.keywords:
+                if k.arg == "dtype" and isinstance(k.value, ast.Attribute) and k.value.attr == "dtype" and dep(k.value.value):
+                    return True
             if isinstance(node.func, ast.Attribute) and node.func.attr == "copy" and not node.args and dep(node.func.value):
                 return True
         if isinstance(node, (ast.List, ast.ListComp)):
@@ -136,6 +141,8 @@ def dtype_follow(proj, f):
         for n in ast.walk(node):
             if isinstance(n, ast.BinOp) and isinstance(n.op, ast.Div):
                 return True
+            if isinstance(n, ast.Attribute) and isinstance(n.value, ast.Name) and n.value.id in selfnames:
+                return True           # a coefficient kept on the object (kappa, a weight): a float in general
             if isinstance(n, ast.Constant) and isinstance(n.value, float):
                 return True
             if isinstance(n, ast.Call) and (_np_name(n.func) in FLOAT_FUNCS or (isinstance(n.func, ast.Attribute) and _root_name(n.func) == "math")):
